@@ -306,6 +306,10 @@ func parsePluginFromDir(ctx context.Context, path string) (string, string, error
 				return "", "", fmt.Errorf("no plugin executable file was found: %w", err)
 			}
 			logger.Warnf("Found candidate plugin executable file %q without executable permission. Setting user executable bit and trying to install.", filepath.Base(candidate))
+			candidatePluginName, err := parsePluginName(filepath.Base(candidate))
+			if err != nil {
+				return "", "", err
+			}
 			return candidate, candidatePluginName, nil
 		}
 		return "", "", errors.New("no plugin executable file was found")
